@@ -334,7 +334,9 @@ class Report:
         self.violations.append((kind, what, path, found_input))
 
     def finish(self, level="proof"):
-        os.makedirs(os.path.join(ROOT, "evidence"), exist_ok=True)
+        # runs against another checkout (VERIF_REPO, used by bin/seedtest) must not overwrite the evidence of /repo
+        evdir = os.path.join(ROOT, "evidence") if REPO == "/repo" else os.path.join(BUILD, "evidence_alt")
+        os.makedirs(evdir, exist_ok=True)
         ev = {
             "property_id": self.pid,
             "tier": self.tier,
@@ -346,7 +348,7 @@ class Report:
             "violations": len(self.violations),
             "known_findings_reported": self.known,
         }
-        json.dump(ev, open(os.path.join(ROOT, "evidence", self.pid + ".json"), "w"), indent=1, sort_keys=True)
+        json.dump(ev, open(os.path.join(evdir, self.pid + ".json"), "w"), indent=1, sort_keys=True)
         log("%s %s: %d violation(s), %d known finding(s), %.1fs" %
             (self.pid, self.tier, len(self.violations), len(self.known), time.time() - self.t0))
         return 1 if self.violations else 0
